@@ -1,5 +1,5 @@
 (* C07 -- ExeFS entries and documented name aliases. *)
-From Pyctr Require Import Base.Prelude Base.ListExt Base.PyInt Base.PySlice Base.PyStr Model.Exefs Proofs.ExefsProofs.
+From Pyctr Require Import Base.Prelude Base.ListExt Base.PyInt Base.PySlice Base.PyStr Model.Exefs Proofs.ExefsProofs Proofs.ExefsHeaderProofs.
 From Dyn Require Import Gen_exefs.
 
 Definition slash : list Z := [47].
@@ -62,7 +62,16 @@ Theorem C07_reject_name : forall raw h,
   all_zero raw = false -> is_ascii (rstrip0 (slice raw 0 8)) = false -> decode_slot raw h = Err (Pyctr 12).
 Proof. exact slot_bad_name. Qed.
 
+(* the whole header: ten slots, used or empty in any positions, any 32 reserved bytes, any bytes in the hash fields of empty
+   slots: the reader lists exactly the used entries, in slot order, each with the hash stored for ITS slot (the hash table runs
+   backwards from the end of the header) *)
+Theorem C07_header_roundtrip : forall reserved fill slots,
+  len reserved = 32 -> len fill = 32 -> length slots = 10%nat -> Forall wf_slot slots ->
+  exefs_parse (encode_header reserved fill slots) = Ok (used slots).
+Proof. exact header_roundtrip. Qed.
+
 Print Assumptions C07_alias.
+Print Assumptions C07_header_roundtrip.
 Print Assumptions C07_slot_roundtrip.
 Print Assumptions C07_reject_offset.
 Print Assumptions C07_reject_name.
@@ -74,3 +83,11 @@ Example C07_alias_banner :
   normalize_path ascii_lower (slash ++ banner ++ [46; 66; 73; 78]) = banner /\
   normalize_path ascii_lower (banner ++ dotbin) = banner.
 Proof. vm_compute. auto. Qed.
+
+Example C07_header_nonvacuous :
+  let e k nm off sz := mkEntry nm off sz (k :: repeat 0 31) in
+  let slots := [None; Some (e 1 [105; 99; 111; 110] 0 0x36C0); None; None; Some (e 2 [46; 99; 111; 100; 101] 0x3800 5); None; None; None; None;
+                Some (e 3 [98] 0x3A00 0)] in
+  Forall wf_slot slots /\
+  exefs_parse (encode_header (repeat 7 32) (repeat 9 32) slots) = Ok (used slots) /\ length (used slots) = 3%nat.
+Proof. exact header_roundtrip_nonvacuous. Qed.
